@@ -7,6 +7,12 @@ checks = {
  "C01": (SWEEP + " R1; round trips, edge order, two-path digests, lunar stepping",
          "Every civil day 0001-01-01..9998-12-31 (thorough; quick = seam windows + stride years) x slot-edge times is a state; conversions, both construction paths and Lunar.Next(n) are transitions executed on the real code and compared with the integer day model and with each other. Strict order along every NextDay(1) edge gives the bijection. Exhaustive within the stated alphabets.",
          "R1 day numbering; full getter digests are taken on a stated subset, field digests (whole struct state incl. 31 term instants) everywhere", "4 C01"),
+ "C02": ("exhaustive enumeration of all lunations / lunar years of the stated ranges against an independent ephemeris (R3) and ICU, with the leap rule re-evaluated on the library's own data",
+         "Every month of every year table 1645..3000 and every lunar year 1929..3000: new-moon day against R3 (era margins), the no-major-term rule re-evaluated on the library's own term days (no margin) and on R3's events, ICU month starts 1900..2100. Events inside the oracle's margin of midnight are counted undecided, never failed.",
+         "R3 written from published formulas and self-tested at start-up; ICU is a system library (leg skipped with a note if absent)", "4 C02"),
+ "C03": ("exhaustive enumeration of all 31 entries of all year tables: root check through the library's own exported longitude function (1 s), independent ephemeris (20 min), structure, and every lookup function on boundary query moments; daily term names over all days",
+         "All 309,938 table instants are checked as roots of the library's ephemeris (verif-tagged export) and against R3 for years 1..3000; order, gaps and agreement of adjacent tables; 12 lookup functions on {t-1s,t,t+1s,00:00:00,23:59:59} around every entry against max/min over the table; day-level term names on every civil day.",
+         "root tolerance two seconds of solar motion (rounding + Newton residual); R3 margin 20 min + delta-T spread", "4 C03"),
  "C04": (SWEEP + " R1 (integer day numbers); boundary-time and step alphabets",
          "Every civil day 0001-01-01..9998-12-31 is a state; every step in the day/hour/month/year alphabets and every JD inverse on the time alphabet is a transition executed on the real code and compared with an integer day-number model. Exhaustive over days and alphabets; the real-valued JD domain is reduced to boundary alphabets (DESIGN.md C04).",
          "R1 integer calendar arithmetic in the harness; float tolerance 2e-9 day", "4 C04"),
